@@ -1,7 +1,9 @@
 #!/bin/bash
 # usage: tools/mutrun.sh <patchfile|-> <check args…>
-# Copies /repo's working tree to a scratch dir, applies the patch there, runs ./check against it
-# (VERIF_REPO), removes the scratch dir. Evidence/replays written during the run are restored.
+# Copies /repo's working tree to a scratch dir, applies the patch there and runs ./check against it (VERIF_REPO).
+# The run builds, writes its evidence and its witnesses inside /verif/.build-alt-*/ - nothing of /verif/evidence,
+# /verif/replays or /verif/.build is touched, so it can run next to ordinary checks. KEEP_REPLAYS=<dir> copies the
+# witnesses there before the scratch directories are removed.
 set -u
 patch="$1"; shift
 S=$(mktemp -d /tmp/vscratch.XXXXXX)
@@ -10,11 +12,9 @@ if [ "$patch" != "-" ]; then
   (cd "$S/repo" && git init -q . 2>/dev/null; git -C "$S/repo" apply --whitespace=nowarn "$patch") || { echo "patch failed"; rm -rf "$S"; exit 9; }
 fi
 cd /verif
-cp -r evidence "$S/evidence.bak"; cp -r replays "$S/replays.bak"
 VERIF_REPO="$S/repo" ./check "$@"
 rc=$?
-rm -rf evidence; mv "$S/evidence.bak" evidence
-if [ -z "${KEEP_REPLAYS:-}" ]; then rm -rf replays; mv "$S/replays.bak" replays; fi
+if [ -n "${KEEP_REPLAYS:-}" ]; then mkdir -p "$KEEP_REPLAYS"; cp -r /verif/.build-alt-*/replays/. "$KEEP_REPLAYS"/ 2>/dev/null; fi
 rm -rf "$S" /verif/.build-alt-*
 echo "mutrun rc=$rc"
 exit $rc
